@@ -515,7 +515,7 @@ func reachableAbs(start absRec, batch []claim, reclaimable bool) map[absRec]bool
 	return cur
 }
 
-func c01Batch(run *Run, rig *Rig, x *FakePeer, batch []claim, reclaim time.Duration) *c01Result {
+func c01Batch(run *Run, rig *Rig, x *FakePeer, batch []claim, reclaim time.Duration, mixed bool) *c01Result {
 	node := batch[0].Node
 	before := rig.Snap()
 	now := time.Now()
@@ -523,9 +523,22 @@ func c01Batch(run *Run, rig *Rig, x *FakePeer, batch []claim, reclaim time.Durat
 	reclaimable := rb != nil && rb.State == memberlist.StateDead && reclaim > 0 && now.Sub(rb.StateChange) > reclaim
 	for i := range batch {
 		batch[i].Carrier = "packet" // same instant, same path: the order is the node's choice
+		if mixed && i%2 == 1 {
+			// ... and, when the node's alive delegate yields inside its callback, every other claim comes as
+			// a push/pull entry handled by its own goroutine, concurrently with the packet handler
+			cc := batch[i]
+			cc.Carrier, cc.async = "pp", true
+			batch[i].Carrier = "pp"
+			go func() { _ = rig.deliver(cc, x) }()
+			continue
+		}
 		if err := rig.deliver(batch[i], x); err != nil {
 			return &c01Result{"C01/harness/deliver", err.Error()}
 		}
+	}
+	if mixed {
+		Settle(10 * time.Millisecond)
+		run.Cell("batch", "mixed-carriers-with-yielding-alive-delegate")
 	}
 	Settle(50 * time.Microsecond)
 	after := rig.Snap()
@@ -725,7 +738,7 @@ func TestC01(t *testing.T) {
 						batch = append(batch, b)
 					}
 					batch[0].Vsn = "ok"
-					if r := c01Batch(run, rig, x, batch, cfg.Reclaim); r != nil {
+					if r := c01Batch(run, rig, x, batch, cfg.Reclaim, cfg.AliveYield); r != nil {
 						results = append(results, r)
 						break
 					}
